@@ -465,6 +465,22 @@ func (e *Engine) atomicModel(f *Frame, st *State, callee *ssa.Function, cc *ssa.
 			e.store(st, cl, sIte(args[1].S, e.oneOf(locType(cl)), e.zero(locType(cl))))
 			return Val{T: res, S: cur}, true
 		}
+	case strings.HasSuffix(s, ".Add") && !strings.Contains(s, "Pointer") && len(args) == 2:
+		// atomic.IntNN / UintNN .Add(delta): one step; the sum is computed like the Go expression v + delta
+		if cl := cellLoc(); cl != nil {
+			cur := Val{T: locType(cl), S: e.define("acur", e.sortOf(locType(cl)), e.load(st, cl))}
+			e.assumeTyping(st, cur)
+			sum := e.binop(f, st, token.ADD, cur, args[1], locType(cl), pos)
+			e.store(st, cl, sum.S)
+			return Val{T: res, S: sum.S}, true
+		}
+	case strings.HasSuffix(s, ".Swap") && !strings.Contains(s, "Pointer") && !strings.Contains(s, "Value)") && len(args) == 2:
+		if cl := cellLoc(); cl != nil {
+			cur := Val{T: res, S: e.define("acur", e.sortOf(locType(cl)), e.load(st, cl))}
+			e.assumeTyping(st, cur)
+			e.store(st, cl, args[1].S)
+			return cur, true
+		}
 	case strings.HasSuffix(s, ".Load") && !strings.Contains(s, "Value)") && !strings.Contains(s, "Pointer"):
 		if cl := cellLoc(); cl != nil {
 			v := Val{T: res, S: e.define("aload", e.sortOf(res), e.load(st, cl))}
